@@ -111,7 +111,12 @@ class Check:
             for (name, facts, goal, kind) in p.obligs:
                 k = seen.get(name, 0)
                 seen[name] = k + 1
-                self.vc(f"{short}.{name}.path{i}" + (f".{k}" if k else ""), facts, goal, func=f"{module}.{qualname}", kind=kind)
+                nm = f"{short}.{name}.path{i}" + (f".{k}" if k else "")
+                j = 1
+                while f"{self.prop}.{nm}" in self._names:     # the same function summarised again from another pre-state
+                    j += 1
+                    nm = f"{short}.{name}.pre{j}.path{i}" + (f".{k}" if k else "")
+                self.vc(nm, facts, goal, func=f"{module}.{qualname}", kind=kind)
         self.path_count += len(paths)
         return paths
 
